@@ -3,7 +3,9 @@ import itertools
 
 CLASSES = [1, 3, 4]
 LABELS = [b"a", b"b", b"c", b"A", b"example", b"Example", b"EXAMPLE", b"www", b"sub", b"*", b"\x00", b"test", b"TEST",
-          b"x" * 63, b"z"]
+          b"x" * 63, b"z", b"Z", b"zebra", b"Zebra",
+          # octets that differ only in bit 5 without being a letter pair (a fold written as `| 0x20` confuses them)
+          b"_sip", b"\x7fsip", b"x[1]", b"x{1}", b"\n", b"@", b"`"]
 
 
 def nm(labels):
